@@ -11,6 +11,9 @@
   * `return bool(E)` / `not not E`   kept (no rewrite)
   * `yield from (E for v in it if c)` / `yield from <iterable>`  ->  for v in it: [if c:] yield E
   * `n = A ; while n > B: BODY ; n -= 1`  ->  `for n in range(A, B, -1): BODY`   (counting loops; see _counting_whiles)
+  * `for a, b in ((x1, y1), (x2, y2)): BODY`  ->  BODY[a:=x1, b:=y1] ; BODY[a:=x2, b:=y2]   (literal of pure elements, possibly held
+                                         in a local bound once; no break/continue/else)
+  * `setattr(o, "name", v)`          ->  o.name = v
   * `for ...: ... else:` untouched
   * `if C: return X` + fall-through `return Y` untouched (paths handle it)
   * `elif` chains are already nested Ifs in the AST
@@ -126,8 +129,43 @@ class _D(ast.NodeTransformer):
             return _loc(ast.If(test=v.test, body=a if isinstance(a, list) else [a], orelse=b if isinstance(b, list) else [b]), node)
         return node
 
+    lits = {}  # name -> literal tuple/list it is bound to once (set per function by desugar())
+
+    def visit_For(self, node):
+        """Unroll `for a, b in ((x1, y1), (x2, y2), ...)` over a literal of pure elements (data-driven statement lists)."""
+        it = node.iter
+        if isinstance(it, ast.Name) and it.id in self.lits:
+            it = self.lits[it.id]
+        if isinstance(it, (ast.Tuple, ast.List)) and 0 < len(it.elts) <= 12 and not node.orelse and _pure_lit(it):
+            tgt = node.target
+            names = [tgt.id] if isinstance(tgt, ast.Name) else [e.id for e in tgt.elts] if isinstance(tgt, ast.Tuple) and all(
+                isinstance(e, ast.Name) for e in tgt.elts) else None
+            ok = names is not None and not _own_jump(node.body) and not any(
+                isinstance(x, ast.Name) and x.id in names and isinstance(x.ctx, (ast.Store, ast.Del)) for b in node.body for x in ast.walk(b))
+            if ok and isinstance(tgt, ast.Tuple):
+                ok = all(isinstance(e, (ast.Tuple, ast.List)) and len(e.elts) == len(names) for e in it.elts)
+            if ok:
+                out = []
+                for e in it.elts:
+                    m = {names[0]: e} if isinstance(tgt, ast.Name) else dict(zip(names, e.elts))
+
+                    class Sub(ast.NodeTransformer):
+                        def visit_Name(self_, n):
+                            return copy.deepcopy(m[n.id]) if n.id in m and isinstance(n.ctx, ast.Load) else n
+                    for b in node.body:
+                        out.append(_loc(Sub().visit(copy.deepcopy(b)), node))
+                return self._block(out)
+        return self.generic_visit(node)
+
+    def visit_Call(self, node):
+        return node
+
     def visit_Expr(self, node):
         v = node.value
+        # setattr(o, "name", v)  ->  o.name = v
+        if isinstance(v, ast.Call) and isinstance(v.func, ast.Name) and v.func.id == "setattr" and len(v.args) == 3 and not v.keywords \
+                and isinstance(v.args[1], ast.Constant) and isinstance(v.args[1].value, str) and v.args[1].value.isidentifier():
+            return _loc(ast.Assign(targets=[ast.Attribute(value=v.args[0], attr=v.args[1].value, ctx=ast.Store())], value=v.args[2], type_comment=None), node)
         if isinstance(v, ast.YieldFrom):
             src = v.value
             if isinstance(src, (ast.GeneratorExp, ast.ListComp)) and len(src.generators) >= 1:
@@ -143,6 +181,27 @@ class _D(ast.NodeTransformer):
                            body=[ast.Expr(value=ast.Yield(value=ast.Name(id=var, ctx=ast.Load())))], orelse=[], type_comment=None)
             return _loc(loop, node)
         return node
+
+
+def _pure_lit(e):
+    if isinstance(e, (ast.Tuple, ast.List)):
+        return all(_pure_lit(x) for x in e.elts)
+    if isinstance(e, (ast.Constant, ast.Name)):
+        return True
+    if isinstance(e, ast.Attribute):
+        return _pure_lit(e.value)
+    return False
+
+
+def _own_jump(nodes):
+    for x in nodes:
+        if isinstance(x, (ast.Continue, ast.Break)):
+            return True
+        if isinstance(x, (ast.For, ast.While, ast.FunctionDef, ast.AsyncFunctionDef, ast.ClassDef)):
+            continue
+        if _own_jump(list(ast.iter_child_nodes(x))):
+            return True
+    return False
 
 
 def _counting_whiles(stmts):
@@ -201,4 +260,13 @@ def _counting_whiles(stmts):
 
 def desugar(fnode):
     f = copy.deepcopy(fnode)
-    return _D().visit(f)
+    d = _D()
+    # literal tuples / lists bound once to a local name that is only ever read (iterated)
+    cnt, val = {}, {}
+    for n in ast.walk(f):
+        if isinstance(n, ast.Name) and isinstance(n.ctx, (ast.Store, ast.Del)):
+            cnt[n.id] = cnt.get(n.id, 0) + 1
+        if isinstance(n, ast.Assign) and len(n.targets) == 1 and isinstance(n.targets[0], ast.Name) and isinstance(n.value, (ast.Tuple, ast.List)):
+            val[n.targets[0].id] = n.value
+    d.lits = {k: v for k, v in val.items() if cnt.get(k) == 1 and _pure_lit(v)}
+    return d.visit(f)
